@@ -707,9 +707,42 @@ def _rule_of(msg: str) -> str:
 
 # ------------------------------------------------------------------------------------
 
+class _Directed:
+    """The case's choice source with the odds of some named coin flips replaced: the directed cases of the plan spend their
+    histories on one family of situations (a kept object extended deep down and used again; two operations in flight that
+    share built objects) instead of meeting it now and then.  Every draw still goes through - and is recorded by - the
+    underlying source, and the profile is part of the case, so seeds and replay files mean the same as everywhere else."""
+
+    def __init__(self, ch, odds):
+        self._ch = ch
+        self._odds = odds
+
+    def __getattr__(self, name):
+        return getattr(self._ch, name)
+
+    def chance(self, label, num, den):
+        if label in self._odds:
+            num, den = self._odds[label]
+        return self._ch.chance(label, num, den)
+
+
+PROFILES = {
+    # a sub-object of an earlier operation is placed into a new tree in most operations, preferably an argument-free tree that
+    # gets an argument-bearing field added below its top first
+    "kept-extended": {"e.reuse_earlier_subobject": (1, 2), "e.prefer_quiet_tree": (3, 4), "e.extend_kept_object": (3, 4),
+                      "h.reuse_objects": (1, 8), "h.resend": (1, 8), "e.extend_with_args": (5, 6)},
+    # the very objects of an earlier operation go out again, most of the time next to their original on the same loop
+    "in-flight": {"h.reuse_objects": (1, 2), "h.concurrent_partner": (3, 4)},
+}
+
+
 def run_case(case, ch: Choices) -> RunResult:
     res = RunResult()
     p = case["params"]
+    profile = p.get("profile")
+    if profile:
+        ch = _Directed(ch, PROFILES[profile])
+        res.bump("directed." + profile)
     if p.get("corpus"):
         world = dict(corpus.by_id(p["corpus"]))
         world["config"] = dict(world["config"])
@@ -737,6 +770,8 @@ def run_case(case, ch: Choices) -> RunResult:
             res.discarded = "invalid-world:" + why.split(":")[0]
             return res
         world["config"].pop("plugins", None)
+    if profile == "in-flight":
+        world["config"]["async_client"] = True           # (two operations in flight need a loop)
     cfg = world["config"]
     snake = cfg.get("convert_to_snake_case", True)
     is_async = cfg.get("async_client", True)
@@ -1072,15 +1107,33 @@ def _shape(op):
 def plan(tier, base_seed) -> Plan:
     n_corpus = 40 if tier == "quick" else 200
     n_drawn = 160 if tier == "quick" else 1500
+    n_directed = 72 if tier == "quick" else 480
+    profiles = sorted(PROFILES)
 
     def case(i):
         if i < n_corpus:
             return {"id": "corpus-W9-%d" % i, "seed": derive_seed(base_seed, PROPERTY, "corpus", i),
                     "params": {"corpus": ["W9-custom-operations", "W9k-custom-operations-keyword-names"][i % 2]}}
         j = i - n_corpus
-        return {"id": "drawn-%d" % j, "seed": derive_seed(base_seed, PROPERTY, "drawn", j), "params": {}}
+        if j < n_drawn:
+            return {"id": "drawn-%d" % j, "seed": derive_seed(base_seed, PROPERTY, "drawn", j), "params": {}}
+        k = j - n_drawn
+        if k >= n_directed:
+            # (beyond the fixed part - the time-boxed search of the thorough tier: three drawn histories, then a directed one)
+            x = k - n_directed
+            if x % 4 != 3:
+                return {"id": "drawn-%d" % (n_drawn + x), "seed": derive_seed(base_seed, PROPERTY, "drawn", n_drawn + x), "params": {}}
+            k = n_directed + x // 4
+        # directed histories: each profile on the two corpus worlds and on drawn worlds, by turns
+        params = {"profile": profiles[k % len(profiles)], "nops": 6 + (k // 6) % 7}
+        which = (k // len(profiles)) % 3
+        if which < 2:
+            params["corpus"] = ["W9-custom-operations", "W9k-custom-operations-keyword-names"][which]
+        return {"id": "directed-%s-%d" % (params["profile"], k), "seed": derive_seed(base_seed, PROPERTY, "directed", k), "params": params}
 
-    return Plan(n_corpus + n_drawn, case, note="%d histories on the corpus custom-operations world (sync/async, snake on/off drawn) + %d drawn worlds" % (n_corpus, n_drawn))
+    return Plan(n_corpus + n_drawn + n_directed, case,
+                note="%d histories on the corpus custom-operations world (sync/async, snake on/off drawn) + %d drawn worlds + %d directed histories (profiles %s: the odds of re-using / extending kept objects and of two operations in flight raised)" % (
+                    n_corpus, n_drawn, n_directed, ", ".join(profiles)))
 
 
 def selftest_cases(tier, plan_):
